@@ -485,6 +485,22 @@ def cases(rng, which, count):
                 yield Case("cli_lib", [st, "mask"] + fl, True, "cli-mask-general")
                 if ref and ref != "nope":
                     yield Case("cli_lib", [st, "mask", "--unique", "--ref-seq", ref] + (["--at-most", str(rng.randint(0, 3))] if rng.random() < 0.5 else []), True, "cli-mask-unique-ref")
+                # positions on a reference that has gap columns between its residues: runs of consecutive positions, the same
+                # position twice, descending lists - only the columns carrying the listed reference residues may change
+                if L >= 4:
+                    gl = list(rows[0][1].replace("-", "A"))
+                    for j in rng.sample(range(1, L - 1), rng.randint(1, max(1, (L - 2) // 2))):
+                        gl[j] = "-"
+                    rows2 = [(rows[0][0], "".join(gl))] + rows[1:]
+                    nres = sum(1 for ch in gl if ch != "-")
+                    p0 = rng.randint(0, max(0, nres - 2))
+                    lists = [[p0, p0 + 1], [p0, p0 + 1, p0 + 2], [p0 + 1, p0], [p0, p0], [0, nres - 1], [rng.randint(0, nres) for _ in range(3)]]
+                    fl2 = ["--ref-seq", rows[0][0], "--pos", ",".join(map(str, rng.choice(lists)))]
+                    if rng.random() < 0.3:
+                        fl2.append("--no-ref")
+                    if rng.random() < 0.3:
+                        fl2.append("--no-gaps")
+                    yield Case("cli_lib", [esc(fasta(rows2)), "mask"] + fl2 + (["--replace", rep] if rep else []), True, "cli-mask-pos-gapped-ref")
             elif w == "dedup":
                 rr = rows + [("d%d" % i, rng.choice(rows)[1]) for i in range(rng.randint(0, 3))]
                 if rng.random() < 0.5 and rr:
